@@ -129,7 +129,7 @@ contract("codemodder.llm.setup_azure_llama_llm_client", props=["C20"], params={}
          ensures=[("returns normally only for a consistent Azure Llama configuration", f"bool({_K2}) == bool({_E2})")])
 
 external("codemodder.utils.timer.Timer", params={}, returns="Opaque")
-contract("codemodder.context.CodemodExecutionContext.__init__", props=["C20", "C04", "C11", "C15", "C09"],
+contract("codemodder.context.CodemodExecutionContext.__init__", props=["C20", "C04", "C11", "C15", "C09", "C13", "C05"],
          params={"self": "CodemodExecutionContext", "directory": "Opaque", "dry_run": "bool", "verbose": "bool", "registry": "Opaque",
                  "providers": "Opaque", "repo_manager": "Opaque", "path_include": "list[str]", "path_exclude": "list[str]",
                  "tool_result_files_map": "dict[str, list[str]] | None", "max_workers": "int"},
